@@ -21,10 +21,17 @@ ENV["CARGO_TERM_COLOR"] = "never"
 # ---------------------------------------------------------------------------------------------
 # registry: property -> level + lanes.  A lane is (kind, params).
 
+CONC = ("hlmon", dict(runner="conc"))
 PROPS = {
-    "C01": dict(level="exploration", lanes=[("hlmon", dict(runner="C01"))]),
-    "C02": dict(level="exploration", lanes=[("hlmon", dict(runner="C02"))]),
-    "C05": dict(level="exploration", lanes=[("hlmon", dict(runner="C05"))]),
+    "C01": dict(level="exploration", lanes=[CONC, ("hlmon", dict(runner="seqfam"))]),
+    "C02": dict(level="exploration", lanes=[CONC, ("hlmon", dict(runner="blockfam"))]),
+    "C03": dict(level="exploration", lanes=[("hlmon", dict(runner="seqfam")), ("hlmon", dict(runner="blockfam")), CONC]),
+    "C04": dict(level="exploration", lanes=[("hlmon", dict(runner="tryfam")), ("hlmon", dict(runner="blockfam")), CONC]),
+    "C05": dict(level="exploration", lanes=[CONC, ("hlmon", dict(runner="seqfam")), ("hlmon", dict(runner="blockfam"))]),
+    "C07": dict(level="exploration", lanes=[("hlmon", dict(runner="dupfam"))]),
+    "C08": dict(level="exploration", lanes=[("hlmon", dict(runner="orderfam"))]),
+    "C13": dict(level="exploration", lanes=[("hlmon", dict(runner="tryfam"))]),
+    "C17": dict(level="exploration", lanes=[("hlmon", dict(runner="nonacqfam")), CONC]),
 }
 
 ASSUMPTIONS = {
